@@ -58,7 +58,7 @@ theorem history_reconstructs_present (l : List Stmt) : VInv (run Store.init l) :
 /-- an update, an archive and a tombstone later, the first coordinate still shows version 1 active -/
 def hist1 : List Stmt := [{ dry := false, clauses := [.createConcept 1 1 1 1 false] }]
 def hist2 : List Stmt :=
-  [{ dry := false, clauses := [.update (.id ⟨.concept, 1⟩) 5 none false] },
+  [{ dry := false, clauses := [.update (.id ⟨.concept, 1⟩) [.setName 5] none false] },
    { dry := false, clauses := [.setState (.id ⟨.concept, 1⟩) .archived none] },
    { dry := true, clauses := [.createConcept 1 1 2 2 false] },
    { dry := false, clauses := [.setState (.id ⟨.concept, 1⟩) .tombstoned none] }]
@@ -66,6 +66,18 @@ example : asOf (run (run Store.init hist1) hist2) ⟨.concept, 1⟩ 1 =
       some { row := { ty := 1, key := 1, val := 1 }, version := 1, state := .active, seq := 1 } ∧
     current (run (run Store.init hist1) hist2) ⟨.concept, 1⟩ =
       some { row := { ty := 1, key := 1, val := 5 }, version := 4, state := .tombstoned, seq := 5 } := by decide
+
+/-- a Facet-only UPDATE of an element still at version 1 (the decay sweep), then another one: every
+commit adds one version row, none is replaced — the coordinates in between keep their versions -/
+def histFacet : List Stmt :=
+  [{ dry := false, clauses := [.createConcept 1 1 1 1 false] },
+   { dry := false, clauses := [.update (.id ⟨.concept, 1⟩) [.setFacet 3] none false] },
+   { dry := false, clauses := [.createConcept 1 2 0 2 false] },
+   { dry := false, clauses := [.update (.id ⟨.concept, 1⟩) [.setFacet 5, .unsetFacet] none false] }]
+example : ((run Store.init histFacet).vlog.map (fun v => (v.id, v.version, v.seq, v.elem.row.fac))) =
+      [(⟨.concept, 1⟩, 3, 4, 0), (⟨.concept, 2⟩, 1, 3, 0), (⟨.concept, 1⟩, 2, 2, 3), (⟨.concept, 1⟩, 1, 1, 0)] ∧
+    (asOf (run Store.init histFacet) ⟨.concept, 1⟩ 1).map (·.version) = some 1 ∧
+    (asOf (run Store.init histFacet) ⟨.concept, 1⟩ 3).map (fun e => (e.version, e.row.fac)) = some (2, 3) := by decide
 
 /-- A coordinate between two points reads like the earlier one: a refused / dry statement burns a
 sequence without writing, and `AS OF` that sequence is the state before it. -/
@@ -127,7 +139,7 @@ theorem purge_erases (log : List VEntry) (i : Id) (c : Nat) : elementAt (purgeVe
 /-- a PURGE next to a clause that only the commit refuses: nothing is written **and nothing is erased** -/
 def histP : List Stmt :=
   [{ dry := false, clauses := [.createConcept 1 1 7 1 false, .createConcept 2 2 0 2 false] },
-   { dry := false, clauses := [.update (.id ⟨.concept, 2⟩) 5 none false] }]
+   { dry := false, clauses := [.update (.id ⟨.concept, 2⟩) [.setName 5] none false] }]
 def stmtPurgeRefused : Stmt :=
   { dry := false, clauses := [.purge (.id ⟨.concept, 2⟩) false, .createConcept 1 1 7 9 false] }
 example : (exec (run Store.init histP) stmtPurgeRefused).2 = .refusedCheck .identityConflict ∧
